@@ -128,6 +128,37 @@ type extractor struct {
 	// wrapperOK: aghrenameio.pendingFile.{CloseReplace,Cleanup,Write} do nothing
 	// but delegate to renameio's CloseAtomicallyReplace, Cleanup and os.File.Write
 	wrapperOK [3]bool
+	// limiters: every size-limiting wrapper in the module
+	limiters []*limiter
+}
+
+// Limiter kinds.
+const (
+	limSilent   = 1 // ends the stream with a clean io.EOF / copies at most n bytes: the consumer cannot tell
+	limErroring = 2 // returns an error at the limit: the save is abandoned through Cleanup
+)
+
+// limiterCallees are the recognised size-limiting wrappers.
+var limiterCallees = map[string]int{
+	"io.LimitReader":          limSilent,
+	"io.CopyN":                limSilent,
+	"io.NewSectionReader":     limSilent,
+	"net/http.MaxBytesReader": limErroring,
+	"github.com/AdguardTeam/golibs/ioutil.LimitReader": limErroring,
+}
+
+type limiter struct {
+	ID      int    `json:"id"`
+	Pos     string `json:"pos"`
+	Func    string `json:"func"`
+	What    string `json:"what"`
+	Kind    int    `json:"kind"`
+	KindTxt string `json:"kind_text"`
+	// Durable: inside the static callee closure of a function that writes one of
+	// the three durable files through the atomic writer.
+	Durable bool `json:"on_durable_save_path"`
+	// Atomic: the same for any atomic writer / pending file, whatever its path.
+	Atomic bool `json:"on_any_atomic_save_path"`
 }
 
 type funcInfo struct {
@@ -218,6 +249,7 @@ func main() {
 	x.index()
 	x.collect()
 	x.wrapper()
+	x.collectLimiters()
 	x.write()
 }
 
@@ -1045,6 +1077,146 @@ func (x *extractor) wrapper() {
 	}
 }
 
+// ---------------------------------------------------------------- size limits
+
+// closure returns the functions statically reachable from the roots through
+// direct calls of module functions and methods (closures included; calls
+// through interfaces and function values are not followed).
+func (x *extractor) closure(roots map[*types.Func]bool) map[*types.Func]bool {
+	seen := map[*types.Func]bool{}
+	var work []*types.Func
+	for r := range roots {
+		seen[r] = true
+		work = append(work, r)
+	}
+	for len(work) > 0 {
+		fn := work[len(work)-1]
+		work = work[:len(work)-1]
+		fi, ok := x.funcs[fn]
+		if !ok || fi.decl.Body == nil {
+			continue
+		}
+		ast.Inspect(fi.decl.Body, func(n ast.Node) bool {
+			call, isCall := n.(*ast.CallExpr)
+			if !isCall {
+				return true
+			}
+			c := calleeOf(fi.pkg.TypesInfo, call)
+			if c == nil {
+				return true
+			}
+			c = c.Origin()
+			if _, inModule := x.funcs[c]; inModule && !seen[c] {
+				seen[c] = true
+				work = append(work, c)
+			}
+
+			return true
+		})
+	}
+
+	return seen
+}
+
+// collectLimiters lists every size-limiting wrapper of the module and marks
+// those that sit on a save path: a limit there must make the save FAIL (so that
+// the pending file is cleaned up and the old version stays), not end the input
+// early, which would atomically install a cut-off file.
+func (x *extractor) collectLimiters() {
+	byName := map[string]*types.Func{}
+	for fn := range x.funcs {
+		byName[fullName(fn)] = fn
+	}
+	durableRoots, atomicRoots := map[*types.Func]bool{}, map[*types.Func]bool{}
+	for _, s := range x.sites {
+		if s.Op != opAtomicWrite && s.Op != opPendingFile {
+			continue
+		}
+		fn := byName[s.Func]
+		if fn == nil {
+			continue
+		}
+		atomicRoots[fn] = true
+		if s.Prov&^provOther != 0 && !s.Derived {
+			durableRoots[fn] = true
+		}
+	}
+	durable, atomic := x.closure(durableRoots), x.closure(atomicRoots)
+
+	for _, pkg := range x.pkgs {
+		files := append([]*ast.File{}, pkg.Syntax...)
+		sort.Slice(files, func(i, j int) bool {
+			return x.fset.Position(files[i].Pos()).Filename < x.fset.Position(files[j].Pos()).Filename
+		})
+		for _, file := range files {
+			var cur *ast.FuncDecl
+			add := func(pos token.Pos, what string, kind int) {
+				l := &limiter{ID: len(x.limiters), Pos: x.pos(pos), What: what, Kind: kind,
+					KindTxt: map[int]string{limSilent: "silent", limErroring: "erroring"}[kind]}
+				if cur != nil {
+					l.Func = x.funcName(pkg, cur)
+					if obj, ok := pkg.TypesInfo.Defs[cur.Name].(*types.Func); ok {
+						l.Durable, l.Atomic = durable[obj], atomic[obj]
+					}
+				} else {
+					// Package level: reachable from anywhere.
+					l.Func, l.Durable, l.Atomic = "(package level)", true, true
+				}
+				x.limiters = append(x.limiters, l)
+			}
+			for _, decl := range file.Decls {
+				cur, _ = decl.(*ast.FuncDecl)
+				ast.Inspect(decl, func(n ast.Node) bool {
+					switch v := n.(type) {
+					case *ast.CallExpr:
+						if fn := calleeOf(pkg.TypesInfo, v); fn != nil {
+							if kind, ok := limiterCallees[fullName(fn)]; ok {
+								add(v.Pos(), shortCallee(fullName(fn)), kind)
+							}
+						}
+					case *ast.CompositeLit:
+						if tv, ok := pkg.TypesInfo.Types[v]; ok {
+							if named, isNamed := tv.Type.(*types.Named); isNamed && named.Obj().Pkg() != nil &&
+								named.Obj().Pkg().Path() == "io" &&
+								(named.Obj().Name() == "LimitedReader" || named.Obj().Name() == "SectionReader") {
+								add(v.Pos(), "io."+named.Obj().Name()+"{}", limSilent)
+							}
+						}
+					}
+
+					return true
+				})
+			}
+			// A limiter taken as a value escapes the analysis.
+			for id, obj := range pkg.TypesInfo.Uses {
+				fn, ok := obj.(*types.Func)
+				if !ok || id.Pos() < file.Pos() || id.Pos() > file.End() {
+					continue
+				}
+				if _, tracked := limiterCallees[fullName(fn)]; !tracked {
+					continue
+				}
+				isCall := false
+				ast.Inspect(file, func(n ast.Node) bool {
+					if c, okc := n.(*ast.CallExpr); okc {
+						switch f := ast.Unparen(c.Fun).(type) {
+						case *ast.Ident:
+							isCall = isCall || f == id
+						case *ast.SelectorExpr:
+							isCall = isCall || f.Sel == id
+						}
+					}
+
+					return !isCall
+				})
+				if !isCall {
+					x.fatal(id.Pos(), "size limiter %s used as a value (not a direct call)", fullName(fn))
+				}
+			}
+		}
+	}
+}
+
 // ---------------------------------------------------------------- output
 
 func (x *extractor) write() {
@@ -1080,6 +1252,21 @@ func (x *extractor) write() {
 	sb.WriteString("/-- aghrenameio.pendingFile.CloseReplace / Cleanup / Write are single delegations to\n")
 	sb.WriteString("renameio's CloseAtomicallyReplace / Cleanup and os.File.Write -/\n")
 	fmt.Fprintf(&sb, "def wrapperDelegates : List Bool := [%v, %v, %v]\n", x.wrapperOK[0], x.wrapperOK[1], x.wrapperOK[2])
+	sb.WriteString("\n/-- Size-limiting wrappers (io.LimitReader, io.LimitedReader, io.CopyN, io.SectionReader,\n")
+	sb.WriteString("http.MaxBytesReader, golibs ioutil.LimitReader).  kind: 1 silent (clean EOF at the limit),\n")
+	sb.WriteString("2 erroring.  durable: in the static callee closure of a function that saves one of the\n")
+	sb.WriteString("three durable files; atomic: the same for any atomic writer / pending file. -/\n")
+	sb.WriteString("structure Limiter where\n  id : Nat\n  kind : Nat\n  durable : Bool\n  atomic : Bool\n  deriving DecidableEq, Repr\n\n")
+	sb.WriteString("def limiters : List Limiter := [\n")
+	for i, l := range x.limiters {
+		comma := ","
+		if i == len(x.limiters)-1 {
+			comma = ""
+		}
+		fmt.Fprintf(&sb, "  ⟨%d, %d, %v, %v⟩%s  -- %s %s in %s [%s]\n", l.ID, l.Kind, l.Durable, l.Atomic, comma,
+			l.Pos, l.What, strings.TrimPrefix(l.Func, modPath+"/internal/"), l.KindTxt)
+	}
+	sb.WriteString("]\n")
 	sb.WriteString("\nend AGH.C14.Gen\n")
 	must(os.WriteFile(genPath, []byte(sb.String()), 0o644))
 
@@ -1094,6 +1281,9 @@ func (x *extractor) write() {
 		Packages         int             `json:"packages"`
 		Finalisers       map[string]bool `json:"finalisers_checked"`
 		Outside          []string        `json:"name_matches_outside_owner"`
+		Limiters         int             `json:"size_limiters"`
+		LimitersDurable  int             `json:"size_limiters_on_durable_save_paths"`
+		LimitersSilent   int             `json:"silent_limiters_on_durable_save_paths"`
 	}
 	sum := summary{ByOp: map[string]int{}, DurableByKindOp: map[string]int{}, Packages: len(x.pkgs),
 		Finalisers: x.finalisers}
@@ -1101,6 +1291,15 @@ func (x *extractor) write() {
 		sum.Outside = append(sum.Outside, k)
 	}
 	sort.Strings(sum.Outside)
+	for _, l := range x.limiters {
+		sum.Limiters++
+		if l.Durable {
+			sum.LimitersDurable++
+			if l.Kind == limSilent {
+				sum.LimitersSilent++
+			}
+		}
+	}
 	for _, s := range x.sites {
 		sum.Sites++
 		sum.ByOp[s.OpName]++
@@ -1115,7 +1314,8 @@ func (x *extractor) write() {
 			}
 		}
 	}
-	out := map[string]any{"summary": sum, "sites": x.sites, "repo": x.repo, "wrapper_delegates": x.wrapperOK}
+	out := map[string]any{"summary": sum, "sites": x.sites, "repo": x.repo, "wrapper_delegates": x.wrapperOK,
+		"limiters": x.limiters}
 	b, err := json.MarshalIndent(out, "", " ")
 	must(err)
 	factsDir := filepath.Join(verif, "build/C14")
